@@ -102,9 +102,10 @@ var _ = reserr.ErrAccessDenied
 //@   ensures[C08] old(s.direct + s.indirect + s.indirectsent) != 0 && direct ==> s.direct == old(s.direct) - count
 //@   ensures[C08] !direct ==> s.direct == old(s.direct)
 //@   ensures[C08] forall x *Subscription :: x != s ==> x.direct == old(x.direct)
-//@   ensures !tryDelete ==> (forall x *Subscription :: x.state == old(x.state) && x.resourceSub == old(x.resourceSub) && x.refs == old(x.refs))
+//@   ensures !tryDelete ==> (forall x *Subscription :: x.state == old(x.state) && x.resourceSub == old(x.resourceSub) && x.refs == old(x.refs) &&
+//@       x.readyCallbacks == old(x.readyCallbacks) && x.eventQueue == old(x.eventQueue) && x.throttle == old(x.throttle))
 //@   ensures !tryDelete ==> (forall e *rescache.EventSubscription :: e.queue == old(e.queue))
-//@   ensures !tryDelete ==> (forall k *wsConn, r string :: has(k.subs, r) == old(has(k.subs, r)) && k.subs[r] == old(k.subs[r]))
+//@   ensures !tryDelete ==> (forall m map[string]*Subscription, r string :: has(m, r) == old(has(m, r)) && m[r] == old(m[r]))
 //@   assigns s.direct, s.indirect, s.indirectsent, Subscription.state, Subscription.indirectsent, Subscription.indirect, Subscription.readyCallbacks,
 //@       Subscription.eventQueue, Subscription.throttle, Subscription.resourceSub, Subscription.refs, elems(c.subs), pkgstate(rescache), cachecontainers()
 //@   safety[C15]
@@ -206,6 +207,40 @@ var _ = reserr.ErrAccessDenied
 //@       (access.Error == nil || access.Error.Code == "system.accessDenied" ==> s.access == access) &&
 //@       (!(access.Error == nil || access.Error.Code == "system.accessDenied") ==> s.access == old(s.access))
 
+// --- HTTP responses (C17, C16) ---
+
+// The status code and the number of header/body writes of the HTTP response.
+//@ ghost var httpstatus int
+//@ ghost var httpwrites int
+//@ ghost var httpbodies int
+
+//@ func APIEncoder.ContentType
+//@   trusted
+//@   assigns nothing
+//@ func APIEncoder.EncodeError
+//@   trusted
+//@   assigns nothing
+//@ func APIEncoder.NotFoundError
+//@   trusted
+//@   assigns nothing
+
+// httpError answers with the fixed status of the error's code, once.
+//@ func httpError
+//@   requires w != nil && enc != nil && reserr.predErrOK(err)
+//@   ensures[C17] typeis(err, *reserr.Error) ==> httpstatus == predStatusOf(err.(*reserr.Error).Code)
+//@   ensures[C17] !typeis(err, *reserr.Error) ==> httpstatus == 500
+//@   ensures[C17] httpwrites == old(httpwrites) + 1 && httpbodies == old(httpbodies) + 1
+//@   safety[C15]
+
+//@ func notFoundHandler
+//@   requires w != nil && enc != nil
+//@   ensures[C14,C17] httpstatus == 404 && httpwrites == old(httpwrites) + 1
+//@   safety[C15]
+
+//@ func httpStatusResponse
+//@   trusted
+//@   requires w != nil
+
 // --- late answers and disposal (C11) ---
 
 //@ func (*Subscription).setResource
@@ -214,6 +249,59 @@ var _ = reserr.ErrAccessDenied
 //@ func (*Subscription).doneLoading
 //@   trusted
 //@   requires s != nil
+
+// unsubscribeRefs gives back the indirect subscription of every referenced resource (without
+// running the collector) and forgets the references; nothing else of any subscription changes.
+//@ func (*Subscription).unsubscribeRefs
+//@   requires s != nil && s.c != nil && predConnOK(s.c.(*wsConn))
+//@   assumes forall r string :: has(s.refs, r) ==> s.refs[r] != nil && s.refs[r].sub != nil
+//@   ensures[C11] s.refs == nil
+//@   ensures[C11] forall x *Subscription :: x.state == old(x.state) && x.resourceSub == old(x.resourceSub) && x.direct == old(x.direct) &&
+//@       x.readyCallbacks == old(x.readyCallbacks) && x.eventQueue == old(x.eventQueue) && x.throttle == old(x.throttle)
+//@   ensures[C11] forall k *wsConn :: k.disposing == old(k.disposing) && k.subs == old(k.subs)
+//@   ensures[C11] forall m map[string]*Subscription, r string :: has(m, r) == old(has(m, r)) && m[r] == old(m[r])
+//@   ensures[C11] forall e *rescache.EventSubscription :: e.queue == old(e.queue)
+//@   ensures[C11] callcount("ResourceSubscription.Unsubscribe") == old(callcount("ResourceSubscription.Unsubscribe"))
+//@   safety[C15]
+//@   loop 1 invariant s.refs == old(s.refs) && (forall r string :: has(s.refs, r) ==> s.refs[r] != nil && s.refs[r].sub != nil)
+//@   loop 1 invariant forall x *Subscription :: x.state == old(x.state) && x.resourceSub == old(x.resourceSub) && x.direct == old(x.direct) &&
+//@       x.readyCallbacks == old(x.readyCallbacks) && x.eventQueue == old(x.eventQueue) && x.throttle == old(x.throttle) && x.refs == old(x.refs)
+//@   loop 1 invariant forall k *wsConn :: k.disposing == old(k.disposing) && k.subs == old(k.subs)
+//@   loop 1 invariant forall m map[string]*Subscription, r string :: has(m, r) == old(has(m, r)) && m[r] == old(m[r])
+//@   loop 1 invariant forall e *rescache.EventSubscription :: e.queue == old(e.queue)
+//@   loop 1 invariant callcount("ResourceSubscription.Unsubscribe") == old(callcount("ResourceSubscription.Unsubscribe"))
+
+// Dispose: idempotent; afterwards the subscription is disposed, holds no resource, no pending
+// work and no throttle; a loaded resource that was not deleted is given back to the cache
+// exactly once.
+//@ func (*Subscription).Dispose
+//@   requires s != nil && s.c != nil && predConnOK(s.c.(*wsConn))
+//@   assumes (s.resourceSub != nil ==> s.resourceSub.e != nil && s.resourceSub.e.cache != nil) && (s.state == stateDisposed ==> s.resourceSub == nil)
+//@   ensures[C11] s.state == stateDisposed && s.resourceSub == nil
+//@   ensures[C11] old(s.state) != stateDisposed ==> s.readyCallbacks == nil && s.eventQueue == nil && s.throttle == nil
+//@   ensures[C11] old(s.state) != stateDisposed && old(s.resourceSub) != nil && old(s.state) != stateDeleted ==>
+//@       callcount("ResourceSubscription.Unsubscribe") == old(callcount("ResourceSubscription.Unsubscribe")) + 1
+//@   ensures[C11] old(s.state) == stateDisposed || old(s.resourceSub) == nil || old(s.state) == stateDeleted ==>
+//@       callcount("ResourceSubscription.Unsubscribe") == old(callcount("ResourceSubscription.Unsubscribe"))
+//@   ensures[C11] forall x *Subscription :: x != s ==> x.state == old(x.state) && x.resourceSub == old(x.resourceSub)
+//@   ensures[C11] forall k *wsConn :: k.disposing == old(k.disposing) && k.subs == old(k.subs)
+//@   ensures[C11] forall m map[string]*Subscription, r string :: has(m, r) == old(has(m, r)) && m[r] == old(m[r])
+//@   safety[C15]
+
+// dispose: idempotent; the connection is marked as disposing, leaves the token-reset fan-out,
+// drops its connection-event subscription, and every one of its subscriptions is disposed.
+//@ func (*wsConn).dispose
+//@   requires predConnOK(c)
+//@   assumes predSubsOK(c) && c.serv.conns != nil
+//@   ensures[C11] c.disposing
+//@   ensures[C11] old(c.disposing) ==> c.subs == old(c.subs) && callcount("RemoveConn") == old(callcount("RemoveConn")) && callcount("Dispose") == old(callcount("Dispose"))
+//@   ensures[C11] !old(c.disposing) ==> c.subs == nil && callcount("RemoveConn") == old(callcount("RemoveConn")) + 1
+//@   ensures[C11] !old(c.disposing) ==> (forall r string :: old(has(c.subs, r)) ==> old(c.subs[r]).state == stateDisposed && old(c.subs[r]).resourceSub == nil)
+//@   safety[C15]
+//@   loop 1 invariant c.disposing && c.subs == nil && callcount("RemoveConn") == old(callcount("RemoveConn")) + 1 && callcount("Dispose") == old(callcount("Dispose")) + iters1
+//@   loop 1 invariant subs == old(c.subs) && (forall r string :: has(subs, r) == old(has(c.subs, r)) && subs[r] == old(c.subs[r]))
+//@   loop 1 invariant forall r string :: visited1[r] && has(subs, r) ==> subs[r].state == stateDisposed && subs[r].resourceSub == nil
+//@   loop 1 invariant forall r string :: has(subs, r) ==> subs[r] != nil && subs[r].c == c
 
 // Loaded: if the connection refuses the work (it is disposing), a successfully loaded resource
 // is given back to the cache at once, exactly once; an error needs no release.
@@ -394,7 +482,7 @@ var _ = reserr.ErrAccessDenied
 
 // What stays untouched while only access bookkeeping of subscriptions changes.
 //@ define predSubsStable() bool = (forall x *Subscription :: x.direct == old(x.direct) && x.state == old(x.state)) &&
-//@     (forall k *wsConn, r string :: has(k.subs, r) == old(has(k.subs, r)) && k.subs[r] == old(k.subs[r])) &&
+//@     (forall m map[string]*Subscription, r string :: has(m, r) == old(has(m, r)) && m[r] == old(m[r])) &&
 //@     (forall k *wsConn :: k.subs == old(k.subs) && k.disposing == old(k.disposing) && k.token == old(k.token) && k.tid == old(k.tid) && k.ws == old(k.ws)) &&
 //@     (forall x *Subscription :: x.resourceSub == old(x.resourceSub) && x.eventQueue == old(x.eventQueue)) &&
 //@     (forall x *Subscription :: backing(x.eventQueue) == old(backing(x.eventQueue)))
